@@ -1,10 +1,11 @@
 \* C40 exhaustive: payloads in both directions, every chunking, either application finishing first (cleanly or with
-\* an error), streams with failing writes; peers that only finish their sending half (writes to them keep working)
+\* an error), streams with failing writes; both kinds of peers (writes to a finished peer keep working / fail).
+\* The end-to-end clause is required for half-close peers only (see MC_BiPipe_fullclose_e2e.cfg).
 SPECIFICATION Spec
 CONSTANTS
   Pay <- Pay21
   Errors = TRUE
-  CloseBreaksWrite = FALSE
+  CloseModes = {TRUE, FALSE}
   Variant = "code"
 INVARIANTS InvInOrder InvDelivered InvBothClosed InvCompleted InvEndToEnd InvNoHalfOpen
 CHECK_DEADLOCK FALSE
